@@ -836,6 +836,20 @@ def filter_active(case):
     return case['ctor'] == 'air' and fo is not None and fo[1] != 0
 
 
+def energy_filters_by_strength(smooth):
+    """energy smoothing whose sparsity pattern is filtered by the VALUES of the strength matrix (prefilter / postfilter theta > 0)"""
+    def has(sm):
+        if isinstance(sm, (tuple, list)) and len(sm) == 2 and isinstance(sm[1], dict):
+            for k in ('prefilter', 'postfilter'):
+                f = sm[1].get(k) or {}
+                if isinstance(f, dict) and (f.get('theta') or 0) > 0:
+                    return True
+        return False
+    if isinstance(smooth, list):
+        return any(has(s) for s in smooth)
+    return has(smooth)
+
+
 def classify_format(case, fmt, bs, ref_ok, got):
     """known-finding key for a format-dependent outcome, decided from the input alone"""
     if fmt == 'bsr' and bs > 1 and case['ctor'] in ('sa', 'rn', 'pw', 'air'):
@@ -845,6 +859,10 @@ def classify_format(case, fmt, bs, ref_ok, got):
             and name_of(case['kw'].get('interpolation')) == 'one_point'):
         return K_BSR_SYM_VALUES        # symmetric strength: measure values for CSR, all ones for BSR; one-point
                                        # interpolation ranks the connections by those values
+    if (fmt == 'bsr' and bs == 1 and case['ctor'] in ('sa', 'rn') and got is None and name_of(case['kw'].get('strength')) == 'symmetric'
+            and name_of(case['kw'].get('smooth')) == 'energy' and energy_filters_by_strength(case['kw'].get('smooth'))):
+        return K_BSR_SYM_VALUES        # the same values select the sparsity pattern of energy smoothing when a pre-/post-filter
+                                       # with theta > 0 is requested (filter_matrix_rows on the strength matrix)
     if fmt == 'bsr' and bs > 1 and case['ctor'] == 'rs' and got is None:
         return K_RS_BSR_ZEROS          # csr_array(bsr) keeps the zeros stored inside the blocks: they count as connections
     if fmt == 'bsr' and ref_ok and isinstance(got, TypeError) and str(got).startswith('expected csr_array'):
